@@ -36,6 +36,12 @@ let handle (toks: string list) : string =
       id ^ " " ^ hex_of_bytes (encode53 (n_of_int (int_of_string seed)) (hexarg hex))
   | "dec53" :: id :: seed :: verify :: hex :: [] ->
       id ^ " " ^ show_outcome (decode53 (n_of_int (int_of_string seed)) (n_of_int (int_of_string verify)) (hexarg hex))
+  | "txtenc" :: id :: fs :: hex :: [] ->
+      let f = (match fs with "dos3x" -> TDos | "prodos" -> TProdos | _ -> TCpm) in
+      id ^ " " ^ (match text_encode f (std_term f) (hexarg hex) with Some l -> "ok:" ^ hex_of_bytes l | None -> "none")
+  | "txtdec" :: id :: fs :: hex :: [] ->
+      let f = (match fs with "dos3x" -> TDos | "prodos" -> TProdos | _ -> TCpm) in
+      id ^ " ok:" ^ hex_of_bytes (text_decode f (hexarg hex))
   | "pasenc" :: id :: hex :: [] ->
       id ^ " " ^ (match pas_encode (hexarg hex) with Some l -> "ok:" ^ hex_of_bytes l | None -> "none")
   | "pasdec" :: id :: hex :: [] ->
